@@ -40,7 +40,8 @@ def gen_case(st, tier, env):
         a = gen.gen_alg(w, env, heavy_ok=n_univ <= 6)
         if cyclic and k.random() < 0.5:
             a = {"alg": "ParCons", "aux": dict(w.choice(gen.AUXILIARIES)), "bound": k.choice([0, 1, 2, 3])}
-        calls.append({"alg": a, "one": k.choice([True, False, None]), "sched": gen.gen_sched(st.schedule)})
+        calls.append({"alg": a, "one": k.choice([True, False, None]), "sched": gen.gen_sched(st.schedule),
+                      "bench": k.choice([None, None, None, None, None, True])})
     do_sweep = tier == "thorough" and n_univ <= 5 and k.random() < 0.3
     # history dimension: the same Dataset object is edited in place between calls (a dataset obtained by removals is
     # a dataset like any other; whatever an earlier call cached must not leak into the next consensus)
@@ -143,9 +144,11 @@ def run_case(case, ctx):
                 if c.get("ds") and ds2 is not None:
                     cur["mr"], cur["tags"] = mr2, tags2
                     ctx.probe("second_dataset_call")
-                    judge(run_alg(c["alg"], ds2, sc, c["one"], c["sched"], alg=instances[lab]), c, c["sched"])
+                    judge(run_alg(c["alg"], ds2, sc, c["one"], c["sched"], alg=instances[lab], bench=c.get("bench")),
+                          c, c["sched"])
                     cur["mr"], cur["tags"] = None, None
                 else:
-                    judge(run_alg(c["alg"], ds, sc, c["one"], c["sched"], alg=instances[lab]), c, c["sched"])
+                    judge(run_alg(c["alg"], ds, sc, c["one"], c["sched"], alg=instances[lab], bench=c.get("bench")),
+                          c, c["sched"])
         except Discard:
             ctx.probe("discarded_stub_capacity")
